@@ -30,7 +30,8 @@ func vHandoverWatcher(c *vChain, required, start, window uint32, judge func(ok b
 
 // H_C04_rpcWatcherDeadline: Liquid parameters of the RPC watcher (LiquidConfs 2, window 60),
 // every anchor including anchor+60 >= 2^32, notification heights unrelated to RPC answers.
-//   - ok is only delivered for a notification height h with h < anchor+60 in 64-bit arithmetic
+//   - ok is only delivered for a notification height h with h < anchor+60 in 64-bit arithmetic,
+//     a chain tip (the height the lookup itself read) < anchor+60 in 64-bit arithmetic
 //     and a first-confirmation height <= anchor+60;
 //   - a notification with h >= anchor+60 (64-bit) is answered by the error callback;
 //   - without wrap the deadline error is issued exactly for h >= anchor+60; when anchor+60
@@ -49,6 +50,8 @@ func H_C04_rpcWatcherDeadline() {
 	l := vHandoverWatcher(c, 2, anchor, window, func(ok bool) {
 		if ok {
 			zzverif.Assert(c.processed && uint64(c.cur) < end, "C04.rpc_ok_inside_window64")
+			// the tip the lookup itself read (truncated as the code does) is inside the window too
+			zzverif.Assert(c.haveH && uint64(uint32(c.H)) < end, "C04.rpc_ok_tip_inside_window64")
 			if c.out != nil && uint64(c.out.Confirmations) <= uint64(uint32(c.H))+1 {
 				zzverif.Assert(uint64(uint32(c.H))+1-uint64(c.out.Confirmations) <= end, "C04.rpc_ok_first_conf_inside_window64")
 			}
@@ -79,15 +82,24 @@ func vFirstConf(c *vChain) uint32 {
 }
 
 // H_C05_rpcHandover: Bitcoin parameters (requiredConfs 3, window 504), every start height S,
-// notification height h unrelated to the RPC answers (weakest environment).  When ok is
-// delivered on the gettxout path the code guarantees exactly (f = first-seen height the code
-// derived from its snapshot, all comparisons as the code makes them):
+// notification height h unrelated to the RPC answers (weakest environment: covers the queued,
+// stale notification h <= tip as well as a reorganisation h > tip; Reach witnesses for both).
+// When ok is delivered the watcher guarantees, judged against the snapshot it read last
+// (tip = the getblockcount answer IsTxInMempoolOrRange fetched and used, truncated to 32 bits
+// as the code does; confs = the gettxout answer on that tip; f = the first-confirmation
+// height the code derived from that snapshot; end = S+504 in 64-bit arithmetic):
 //
-//	h <  S+504   (and therefore also in 64-bit arithmetic)
-//	f <= S+504   (64-bit as well)
-//	h-(f-1) >= 3 modulo 2^32
+//	h   <  S+504        the early check on the notification (64-bit as well)
+//	tip <  S+504        the window is open on the tip the lookup used (64-bit as well)
+//	f   <= S+504        as the code compares it (32-bit value of f; 64-bit as well)
+//	gettxout path:  confs >= 3 exactly (tip-(f-1) == confs modulo 2^32 with f = tip+1-confs);
+//	                with a consistent answer (confs <= tip+1, bitcoind: confs = tip-f+1):
+//	                f = tip+1-confs, f+2 <= tip, hence f <= S+501
+//	scan path:      S <= f, f+2 <= tip (the tx sits in block f of the scanned range S..tip,
+//	                tip-f+1 >= 3 without wrap), hence f <= S+501
 //
-// and nothing else: f >= S, f <= h and confirmations >= 3 are NOT implied (Reach witnesses).
+// and nothing else: f >= S (gettxout path) and f <= h are NOT implied (Reach witnesses).
+// ok is never delivered with fewer than 3 confirmations on the tip the watcher read.
 // Bounds: 1 notification, scan <= 3 blocks.
 func H_C05_rpcHandover() {
 	zzverif.Unwind(24)
@@ -100,24 +112,40 @@ func H_C05_rpcHandover() {
 			return
 		}
 		h := c.cur
+		tip := uint32(c.H) // the code truncates getblockcount; every fact is on the value it used
 		zzverif.Assert(c.processed && uint64(h) < end, "C05.rpc_ok_current_below_start_plus_504")
+		zzverif.Assert(c.haveH && uint64(tip) < end, "C05.rpc_ok_tip_below_start_plus_504")
+		if h < tip {
+			zzverif.Reach("rpc_ok_notification_older_than_tip")
+		}
+		if h > tip {
+			zzverif.Reach("rpc_ok_notification_above_tip")
+		}
 		if c.out != nil {
 			f := vFirstConf(c)
+			confs := c.out.Confirmations
 			zzverif.Assert(uint64(f) <= end, "C05.rpc_ok_first_seen_at_most_start_plus_504")
-			zzverif.Assert(h-(f-1) >= 3, "C05.rpc_ok_depth_modulo_2_32")
+			// never ok with fewer than 3 confirmations on the tip the watcher read
+			zzverif.Assert(confs >= 3, "C05.rpc_ok_three_confirmations_on_tip")
+			if uint64(confs) <= uint64(tip)+1 {
+				// consistent gettxout answer: f did not wrap, all facts hold in unbounded arithmetic
+				zzverif.Assert(uint64(f)+uint64(confs) == uint64(tip)+1 && uint64(f)+2 <= uint64(tip), "C05.rpc_ok_first_conf_three_deep_below_tip")
+				zzverif.Assert(uint64(f)+3 <= end, "C05.rpc_ok_first_conf_at_most_start_plus_501")
+			} else {
+				// more confirmations than blocks: no bitcoind answer; f is a wrapped value
+				zzverif.Reach("rpc_ok_inconsistent_confirmations")
+			}
 			if f < S {
 				zzverif.Reach("rpc_ok_confirmed_before_start")
 			}
 			if f > h {
 				zzverif.Reach("rpc_ok_first_seen_above_current")
 			}
-			if c.out.Confirmations < 3 {
-				zzverif.Reach("rpc_ok_with_fewer_than_3_confirmations")
-			}
 		} else if c.found {
 			f := c.foundAt
 			zzverif.Assert(uint64(f) <= end && f >= S, "C05.rpc_ok_scan_first_seen_in_start_to_start_plus_504")
-			zzverif.Assert(h-(f-1) >= 3, "C05.rpc_ok_scan_depth_modulo_2_32")
+			zzverif.Assert(uint64(f)+2 <= uint64(tip), "C05.rpc_ok_scan_three_deep_below_tip")
+			zzverif.Assert(uint64(f)+3 <= end, "C05.rpc_ok_scan_first_conf_at_most_start_plus_501")
 		}
 	})
 	vObserve(l, c, S, window, 1)
